@@ -8,7 +8,10 @@ VARIABLES stage, prf, salt
 
 EncrSeq == << 128, 192, 256 >>
 IntegSeq == << "none", "md5", "sha1", "sha256" >>
-NonceSeq == << FillT("seeded", 0, 0), FillT("seeded", 1, 2), FillT("seeded", 32, 3), FillT("ramp", 64, 4), FillT("ff", 40, 0), FillT("seeded", 300, 5) >>
+\* Ni | Nr of two 256-octet nonces is 512 octets; nothing in the property bounds the string, so longer ones are offered too
+NonceSeq == << FillT("seeded", 0, 0), FillT("seeded", 1, 2), FillT("seeded", 32, 3), FillT("ramp", 64, 4), FillT("ff", 40, 0), FillT("seeded", 300, 5),
+               FillT("seeded", 16, 6), FillT("seeded", 255, 7), FillT("seeded", 256, 8), FillT("seeded", 257, 9), FillT("seeded", 320, 10),
+               FillT("seeded", 337, 11), FillT("ramp", 512, 12), FillT("seeded", 1024, 13), FillT("seeded", 4099, 14) >>
 
 SkdLen(p) == PrfLen(p)
 ChildVector(p, s) ==
